@@ -169,7 +169,7 @@ var arithSafe = []string{"add", "sub", "mul", "+", "-", "*"}
 var arithDiv = []string{"div", "mod", "/", "%"}
 
 // constants every harness configuration defines (Config.ConstantMap)
-var stdConsts = map[string]interface{}{"KT": true, "KF": false, "K7": int64(7)}
+var stdConsts = map[string]interface{}{"KT": true, "KF": false, "K7": int64(7), "KSTR1": "abc"}
 
 var boolVars = []string{"b0", "b1", "b2", "b3"}
 var intVars = []string{"i0", "i1", "i2", "i3"}
@@ -271,6 +271,19 @@ func (g *Gen) Bool(d int) *GT {
 	case x < 62:
 		return gop(pick(r, cmpNames), g.Int(d-1), g.Int(d-1))
 	case x < 70:
+		if r.Intn(5) == 0 {
+			// a string variable against a string LITERAL (or a string constant of the configuration): two leaves, so a
+			// fast operator when that optimisation is on - the literal must stay a constant there, for Eval and TryEval
+			lit := gconst(randStr(r))
+			if r.Intn(4) == 0 {
+				lit = &GT{Kind: "const", Val: "abc", Name: "KSTR1"}
+			}
+			v := gvar(pick(r, strVars))
+			if r.Bool() {
+				return gop(pick(r, eqNames), v, lit)
+			}
+			return gop(pick(r, eqNames), lit, v)
+		}
 		n := 2
 		if r.Intn(3) == 0 {
 			n = 2 + r.Intn(3)
